@@ -216,7 +216,7 @@ Proof.
   destruct f.
   - destruct (is_idle _); simpl; rewrite ntasks_commit, ntasks_check_affected; unfold ntasks; simpl;
       rewrite ?set_nth_length; reflexivity.
-  - destruct (negb r && negb (is_idle _)); [reflexivity|].
+  - destruct (negb r && negb (is_idle _)); [simpl; rewrite ntasks_commit; reflexivity|].
     destruct (negb r).
     + simpl. rewrite ntasks_commit, ntasks_check_affected. unfold ntasks. simpl. rewrite set_nth_length. reflexivity.
     + destruct (state_eqb _ SUCCESS); [reflexivity|]. simpl.
